@@ -30,7 +30,7 @@ Clause of the property → theorems
 * *intervals tile the elapsed time without gaps or overlap*: `loop_clock` (sum of dt),
   `trace_consistent`, `intervals_tile` (first starts at the initial clock, last ends at the final
   clock, consecutive abut, each > eps, every instant covered exactly once),
-  `callbacks_at_boundaries`, `tiling_reaches_target`; whole histories: `history_conservation`.
+  `callbacks_at_boundaries`, `tiling_reaches_target`, `evolveUntil_tiling`; whole histories: `history_conservation`.
 * *the clock ends at T*: `loop_clock`, `evolveUntil_spec`, `history_inv` (`.t_le`, `.lag`).
 * *backwards is refused*: `backwards_refused`, `history_backwards_noop`.
 * *whether or not callbacks remain queued*: `empty_queue_ok`, `empty_queue_raised_before_fix`.
@@ -504,6 +504,21 @@ theorem tiling_reaches_target {kids : Entry → List (Rat × Nat)} (hk : WF kids
     (loop kids T fuel s).s.t ≤ T ∧ T - (loop kids T fuel s).s.t ≤ eps := by
   obtain ⟨-, -, h3, h4, -⟩ := loop_clock hk T fuel s hi hT hok
   exact ⟨(loop_consistent kids T fuel s).tiles, h3, h4⟩
+
+/-- The tiling statements for `evolve_until` itself, whatever its status (a refused backwards call
+integrates nothing and leaves the clock alone). -/
+theorem evolveUntil_tiling (kids : Entry → List (Rat × Nat)) (fuel : Nat) (s : Sys) (T : Rat) :
+    let r := evolveUntil kids fuel s T
+    Consistent s.t r.trace r.s.t ∧ Tiles s.t r.s.t (intervals s.t r.trace) ∧
+    sumDt r.trace = r.s.t - s.t := by
+  intro r
+  have h : Consistent s.t r.trace r.s.t := by
+    by_cases hT : T < s.t
+    · simp only [r, evolveUntil, hT, if_true]; rfl
+    · simp only [r, evolveUntil, hT, if_false]; exact loop_consistent kids T fuel s
+  refine ⟨h, h.tiles, ?_⟩
+  have := h.end_eq
+  linarith
 
 /-! ### Histories: repeated `evolve_until` with `add_callback` in between -/
 
